@@ -99,3 +99,81 @@ Example c10_witness :
                 EWFinish (SErr 1); ETrySend; ETrySend]
     = Some [ROk; RNone; RNone; RNone; ROk; RNone; RNone; RNone; ROk; RFull].
 Proof. vm_compute. repeat split; reflexivity. Qed.
+
+(* ==== added after the audit of 2026-10-02 (selftest/audit/REPORT-2026-10-02.md) ==== *)
+Require Import Cadence.Proofs.AuditQ.
+
+(* the harness-level emit ([act _ _ AEmit], what the correspondence harness observes) on a live
+   handle answers Ok exactly when there is room and Full otherwise, never carries a sample;
+   the acceptance count moves by one exactly on Ok; handles and the delivery log are untouched;
+   a refused emit in a settled state changes nothing at all *)
+Theorem c10_act_emit : forall fixed s, q_handles s <> 0 ->
+  ob_result (snd (act fixed s AEmit)) = (if room s then ROk else RFull) /\
+  ob_sample (snd (act fixed s AEmit)) = None /\
+  q_accepted (fst (act fixed s AEmit)) = q_accepted s + (if room s then 1 else 0) /\
+  q_handles (fst (act fixed s AEmit)) = q_handles s /\
+  q_delivered (fst (act fixed s AEmit)) = q_delivered s /\
+  (room s = false -> internal_step fixed s = None -> fst (act fixed s AEmit) = s).
+Proof. exact act_emit. Qed.
+
+(* a DISABLED harness action (emit / clone / drop without a live handle; release while the
+   wrapped sink is not processing a metric) answers RNone, no sample, and leaves the state
+   unchanged; an enabled one performs its event *)
+Theorem c10_act_disabled : forall fixed s a,
+  act_enabled s a = false -> act fixed s a = (s, {| ob_result := RNone; ob_sample := None |}).
+Proof. exact act_disabled. Qed.
+
+Theorem c10_act_enabled : forall fixed s a ev, event_of a = Some ev -> act_enabled s a = true ->
+  exists s1 r, step fixed s ev = Some (s1, r) /\
+    act fixed s a = (settle fixed (fuel_of s1) s1, {| ob_result := r; ob_sample := None |}).
+Proof. exact act_enabled_spec. Qed.
+
+(* ==== added after the audit of 2026-10-02 (selftest/audit/REPORT-2026-10-02.md) ==== *)
+(* ------------------------------------------------------------------ audit A.10 additions
+   "Ok with the metric's byte length" is not expressible in the Queue model (its results carry no
+   length); it is a statement about the scenario model of the socket sinks, Model/Sock.v, with
+   [queued = true].  Names of other modules are qualified: this file imports Queue. *)
+Require Import Cadence.Model.Sock.
+Require Import Cadence.Proofs.AuditS.
+
+(* a buffered socket sink behind a queuing wrapper, any capacity, any scenario of emits, flushes
+   and listener outages: EVERY emit is answered Ok(the metric's byte length) - also while the
+   listener is away, also when the emit forces a flush that is refused, also for an oversized metric
+   whose own send is refused; a flush is answered Ok or the socket's error (c13_flush_answer says
+   which); the listener's coming and going answers nothing *)
+Theorem c10_buffered_queued_answers : forall co ops rs dg st,
+  sc_buffered co true ops = (rs, dg, st) ->
+  Forall2 (fun o r => match o with
+                      | SEmit m => r = SK (N.of_nat (length m))
+                      | SFlush => r = SK 0 \/ r = SE
+                      | SDown | SUp => r = SNone
+                      end) ops rs.
+Proof. exact sc_buffered_queued_answers. Qed.
+
+(* positionally *)
+Theorem c10_buffered_queued_emit_at : forall co pre m post,
+  nth_error (fst (fst (sc_buffered co true (pre ++ SEmit m :: post)))) (length pre) =
+  Some (SK (N.of_nat (length m))).
+Proof. exact sc_buffered_queued_emit_at. Qed.
+
+(* exactly: with xs the writer's own answers to the calls (SockProofs.wsteps over sc_wops), the
+   answers are AuditS.queued_answers ops xs - Ok(len) for an emit without looking at xs, the
+   writer's own Ok / error for a flush *)
+Theorem c10_buffered_queued_exact : forall co ops,
+  fst (fst (sc_buffered co true ops)) =
+  queued_answers ops (fst (SockProofs.wsteps (Writer.sink_init co []) 0 (SockProofs.sc_wops true ops))).
+Proof. exact sc_buffered_queued_exact. Qed.
+
+(* non-vacuity (capacity 8): two metrics fill the buffer; while the listener is away a third emit
+   forces a flush that is refused, an oversized metric is refused, an explicit flush is refused;
+   behind the queue the emits are answered Ok(len), without it the socket's error *)
+Example c10_buffered_queued_witness :
+  sc_buffered (Some 8) true
+    [SEmit [1;2;3]; SDown; SEmit [4;5;6]; SEmit [7;8;9]; SEmit [1;1;1;1;1;1;1;1;1]; SFlush; SUp; SFlush]%N =
+  ([SK 3; SNone; SK 3; SK 3; SK 9; SE; SNone; SK 0],
+   [[1;2;3;10;4;5;6;10]]%N,
+   {| Stats.bytes_sent := 8; Stats.packets_sent := 1; Stats.bytes_dropped := 25; Stats.packets_dropped := 3 |})%N /\
+  fst (fst (sc_buffered (Some 8) false
+    [SEmit [1;2;3]; SDown; SEmit [4;5;6]; SEmit [7;8;9]; SEmit [1;1;1;1;1;1;1;1;1]; SFlush; SUp; SFlush]%N)) =
+  [SK 3; SNone; SK 3; SE; SE; SE; SNone; SK 0]%N.
+Proof. vm_compute. split; reflexivity. Qed.
